@@ -14,36 +14,107 @@ Local Open Scope N_scope.
 Definition sentry := (fmt * list byte)%type.
 Definition spool := list (option sentry).
 
-(* validity of a byte string in a format.  UTF-8: the strict decoder of
-   Base/Utf8.v accepts it.  WTF-8: there is no independent definition here; the
-   implementation's own validator is used and is known to be too permissive
-   (known finding C11-wtf8-validate), so nothing below claims WTF-8 validity. *)
+(* generalised UTF-8: like the strict decoder of Base/Utf8.v, but the surrogate
+   code points U+D800..U+DFFF (ED A0..BF xx) are decoded too *)
+Definition dec1g (bs : list N) : option (N * list N) :=
+  match bs with
+  | [] => None
+  | b0 :: t =>
+    if b0 <? 0x80 then Some (b0, t)
+    else if b0 <? 0xC2 then None
+    else if b0 <? 0xE0 then
+      match t with
+      | b1 :: t1 => if is_cont b1 then Some ((b0 - 0xC0) * 64 + (b1 - 0x80), t1) else None
+      | _ => None
+      end
+    else if b0 <? 0xF0 then
+      match t with
+      | b1 :: b2 :: t2 =>
+        if is_cont b1 && is_cont b2 && (negb (b0 =? 0xE0) || (0xA0 <=? b1))
+        then Some ((b0 - 0xE0) * 4096 + (b1 - 0x80) * 64 + (b2 - 0x80), t2) else None
+      | _ => None
+      end
+    else if b0 <? 0xF5 then
+      match t with
+      | b1 :: b2 :: b3 :: t3 =>
+        if is_cont b1 && is_cont b2 && is_cont b3
+           && (negb (b0 =? 0xF0) || (0x90 <=? b1)) && (negb (b0 =? 0xF4) || (b1 <? 0x90))
+        then Some ((b0 - 0xF0) * 262144 + (b1 - 0x80) * 4096 + (b2 - 0x80) * 64 + (b3 - 0x80), t3)
+        else None
+      | _ => None
+      end
+    else None
+  end.
+
+Definition is_lead_cp (c : N) : bool := (0xD800 <=? c) && (c <=? 0xDBFF).
+Definition is_trail_cp (c : N) : bool := (0xDC00 <=? c) && (c <=? 0xDFFF).
+
+(* WTF-8: generalised UTF-8 in which no lead surrogate is directly followed by a
+   trail surrogate (such a pair has to be written as one 4-byte sequence) *)
+Fixpoint wtf8_spec_fuel (fuel : nat) (prev_lead : bool) (bs : list N) : bool :=
+  match bs with
+  | [] => true
+  | _ =>
+    match fuel with
+    | O => false
+    | S f =>
+      match dec1g bs with
+      | Some (c, r) => if prev_lead && is_trail_cp c then false else wtf8_spec_fuel f (is_lead_cp c) r
+      | None => false
+      end
+    end
+  end.
+Definition wtf8_spec (bs : list N) : bool := wtf8_spec_fuel (length bs) false bs.
+
+(* validity of a byte string in a format: UTF-8 = the strict decoder of
+   Base/Utf8.v accepts it *)
 Definition fvalid (f : fmt) (b : list byte) : bool :=
   match f with
   | FBytes | FLatin1 => true
   | FAscii => forallb (fun x => x <=? 127) b
   | FUtf8 => match decs b with Some _ => true | None => false end
-  | FWtf8 => validate FWtf8 b
+  | FWtf8 => wtf8_spec b
   end.
 
-(* the formats for which the theorems claim validity of every tendril *)
-Definition fvalid_inv (f : fmt) (b : list byte) : bool :=
-  match f with FWtf8 => true | _ => fvalid f b end.
+Definition fvalid_inv (f : fmt) (b : list byte) : bool := fvalid f b.
 
-Definition sub_ok (f : fmt) (b : list byte) : bool :=
-  match f with FWtf8 => vsubseq FWtf8 b | _ => fvalid f b end.
-Definition suffix_ok (f : fmt) (b : list byte) : bool :=
-  match f with FWtf8 => vsuffix FWtf8 b | _ => fvalid f b end.
-Definition prefix_ok (f : fmt) (b : list byte) : bool :=
-  match f with FWtf8 => vprefix FWtf8 b | _ => fvalid f b end.
+(* a slice / a remainder is accepted iff it is valid in the format *)
+Definition sub_ok (f : fmt) (b : list byte) : bool := fvalid f b.
+Definition suffix_ok (f : fmt) (b : list byte) : bool := fvalid f b.
+Definition prefix_ok (f : fmt) (b : list byte) : bool := fvalid f b.
 
-(* concatenation; WTF-8 joins a trailing lead surrogate with a leading trail surrogate *)
+(* 10-bit index of a lead surrogate ending a / of a trail surrogate starting b *)
+Definition lead_of (a : list byte) : option N :=
+  match rev a with
+  | b2 :: b1 :: b0 :: _ =>
+    if (b0 =? 0xED) && (0xA0 <=? b1) && (b1 <? 0xB0) && is_cont b2
+    then Some ((b1 - 0xA0) * 64 + (b2 - 0x80)) else None
+  | _ => None
+  end.
+Definition trail_of (b : list byte) : option N :=
+  match b with
+  | b0 :: b1 :: b2 :: _ =>
+    if (b0 =? 0xED) && (0xB0 <=? b1) && (b1 <? 0xC0) && is_cont b2
+    then Some ((b1 - 0xB0) * 64 + (b2 - 0x80)) else None
+  | _ => None
+  end.
+
+(* concatenation; WTF-8 joins a trailing lead surrogate with a leading trail
+   surrogate into the supplementary code point they denote *)
 Definition sconcat (f : fmt) (a b : list byte) : list byte :=
   match f with
-  | FWtf8 => let '(dl, dr, ins) := fixup FWtf8 a b in
-             firstn (N.to_nat (llen a - dl)) a ++ ins ++ skipn (N.to_nat dr) b
+  | FWtf8 =>
+    match lead_of a, trail_of b with
+    | Some hi, Some lo => firstn (length a - 3) a ++ enc (0x10000 + hi * 1024 + lo) ++ skipn 3 b
+    | _, _ => a ++ b
+    end
   | _ => a ++ b
   end.
+
+(* what push_bytes_without_validating leaves in the tendril (Format::fixup applied) *)
+Definition pushed (f : fmt) (a b : list N) : list N :=
+  let '(dl, dr, ins) := fixup f a b in
+  firstn (N.to_nat (llen a - dl)) a ++ ins ++ skipn (N.to_nat dr) b.
 
 Definition sget (p : spool) (i : nat) : option sentry :=
   match nth_error p i with Some (Some e) => Some e | _ => None end.
